@@ -31,7 +31,7 @@ class World:
     """kinds: dict test name -> kind; tests named <layer letter lower><i>;
     'u*' tests have no layer (unit tests)."""
 
-    def __init__(self, kinds, b_on_a=False, su=None, td=None, imp=False, noise=False, order=None, hooks='st', levels=None, nest=False, strnames=None):
+    def __init__(self, kinds, b_on_a=False, su=None, td=None, imp=False, noise=False, order=None, hooks='st', levels=None, nest=False, strnames=None, suite_level=None):
         self.kinds = dict(kinds)
         self.su = su or {}
         self.td = td or {}
@@ -59,11 +59,16 @@ class World:
             self.tests.append(t)
         self.names = names
         self.nest = nest
+        self.suite_level = suite_level
 
     def suites(self):
         if self.nest:       # the same tests, nested to depth 3 in two top-level suites
             half = len(self.tests) // 2
-            s = [unittest.TestSuite([unittest.TestSuite([unittest.TestSuite(self.tests[:half])])]), unittest.TestSuite(self.tests[half:])]
+            inner = unittest.TestSuite(self.tests[:half])
+            outer = unittest.TestSuite([unittest.TestSuite([inner])])
+            if self.suite_level is not None:      # an enclosing suite declares a level; tests re-declare their own
+                outer.level = self.suite_level
+            s = [outer, unittest.TestSuite(self.tests[half:])]
         else:
             s = [unittest.TestSuite(self.tests)]
         if self.imp:
